@@ -53,8 +53,13 @@ def cases(tier, seed):
                "min_interval": int(rng.integers(3, 6)), "classes": int(rng.integers(2, 5)), "n_jobs": [1, 1, 2][r % 3], "dseed": int(rng.integers(0, 2 ** 31)),
                "eseed": int(rng.integers(0, 100))}
     for r in range(20 if tier == "quick" else 300):
-        yield {"kind": "colens", "members": int(rng.integers(1, 4)), "nc": int(rng.integers(3, 5)), "ni": int(rng.integers(10, 18)), "nt": int(rng.integers(12, 24)),
-               "classes": int(rng.integers(2, 4)), "dseed": int(rng.integers(0, 2 ** 31)), "eseed": int(rng.integers(0, 100))}
+        FORMS = ["list", "int", "name", "names", "slice", "mask", "callable"]
+        k = int(rng.integers(1, 4))
+        yield {"kind": "colens", "members": k, "nc": int(rng.integers(3, 6)), "ni": int(rng.integers(10, 18)), "nt": int(rng.integers(12, 24)),
+               "classes": int(rng.integers(2, 4)), "dseed": int(rng.integers(0, 2 ** 31)), "eseed": int(rng.integers(0, 100)),
+               "forms": [FORMS[int(rng.integers(0, len(FORMS)))] for _ in range(k)], "names": ["default", "unsorted"][int(rng.integers(0, 2))],
+               "skipped": [[["drop", "empty"][int(rng.integers(0, 2))], int(rng.integers(0, 4))] for _ in range(int(rng.integers(0, 3)))],
+               "remainder": bool(rng.random() < 0.5)}
 
 
 def _labels(name, cls_idx, k):
@@ -250,12 +255,46 @@ def _colens(case, ctx):
     from sktime.classification.compose import ColumnEnsembleClassifier
     from sktime.classification.interval_based import TimeSeriesForestClassifier
     rng = np.random.default_rng([case["dseed"], 1719])
-    X, cidx, _ = pzoo.make_panel(rng, case["ni"], case["nc"], case["nt"], classes=case["classes"])
-    Xte, _, _ = pzoo.make_panel(rng, 6, case["nc"], case["nt"], classes=case["classes"])
+    nc = case["nc"]
+    X, cidx, _ = pzoo.make_panel(rng, case["ni"], nc, case["nt"], classes=case["classes"])
+    Xte, _, _ = pzoo.make_panel(rng, 6, nc, case["nt"], classes=case["classes"])
+    if case.get("names") == "unsorted":
+        # column labels that are neither positions nor sorted: selection by name and by position must not be confused
+        names = ["v%d" % v for v in rng.permutation(nc)]
+        X.columns, Xte.columns = names, list(names)
     y = np.array(["k%d" % v for v in cidx])
-    cols = [int(v) for v in rng.choice(case["nc"], size=case["members"], replace=False)]
-    members = [("m%d" % i, TimeSeriesForestClassifier(n_estimators=3, random_state=case["eseed"] + i), [c]) for i, c in enumerate(cols)]
-    ce = ColumnEnsembleClassifier(members)
+    cols = [int(v) for v in rng.choice(nc, size=case["members"], replace=False)]
+    mk = lambda i: TimeSeriesForestClassifier(n_estimators=3, random_state=case["eseed"] + i)  # noqa
+
+    def colspec(c, form):
+        if form == "int":
+            return c
+        if form == "name":
+            return X.columns[c]
+        if form == "names":
+            return [X.columns[c]]
+        if form == "slice":
+            return slice(c, c + 1)
+        if form == "mask":
+            return [j == c for j in range(nc)]
+        if form == "callable":
+            return lambda Z, c=c: [c]
+        return [c]
+    forms = case.get("forms") or ["list"] * len(cols)
+    members = [("m%d" % i, mk(i), colspec(c, forms[i % len(forms)])) for i, c in enumerate(cols)]
+    live = [(i, c) for i, c in enumerate(cols)]           # (seed offset, column) of the members that must vote, in order
+    # members that must not vote: 'drop' entries and empty column selections, at arbitrary positions
+    free = [c for c in range(nc) if c not in cols]
+    for j, (what, where) in enumerate(case.get("skipped") or []):
+        entry = ("s%d" % j, "drop", [free[j % len(free)]] if free else [cols[0]]) if what == "drop" else ("s%d" % j, mk(50 + j), [])
+        members.insert(min(where, len(members)), entry)
+    kw = {}
+    used = set(cols) | {e[2][0] for e in members if e[1] == "drop" and e[2]}
+    rest = [c for c in range(nc) if c not in used]
+    if case.get("remainder") and len(rest) == 1:
+        kw["remainder"] = mk(90)
+        live.append((90, rest[0]))
+    ce = ColumnEnsembleClassifier(members, **kw)
     ok, _ = ctx.call("colens:fit-exception", ce.fit, X, y)
     if not ok:
         return
@@ -266,14 +305,24 @@ def _colens(case, ctx):
     enc = {c: i for i, c in enumerate(sorted(set(y.tolist())))}
     yi = np.array([enc[v] for v in y])
     probs = []
-    for i, c in enumerate(cols):
-        m = TimeSeriesForestClassifier(n_estimators=3, random_state=case["eseed"] + i).fit(X.iloc[:, [c]], yi)
+    for i, c in live:
+        m = mk(i).fit(X.iloc[:, [c]], yi)
         probs.append(m.predict_proba(Xte.iloc[:, [c]]))
     exp = np.mean(probs, axis=0)
     ctx.check("column-ensemble.average", np.asarray(P).shape == exp.shape and np.allclose(P, exp, atol=1e-12), "colens:proba-not-average-of-members-on-own-columns",
-              "column ensemble probabilities are not the average of its members' probabilities on their own columns", got=np.asarray(P)[0].tolist(), expected=exp[0].tolist(), columns=cols)
+              "column ensemble probabilities are not the average of its members' probabilities on their own columns", got=np.asarray(P)[0].tolist(), expected=exp[0].tolist(),
+              columns=cols, forms=forms, skipped=case.get("skipped"), remainder=bool(kw))
+    # a second call and a call on reordered instances see the same members on the same columns
+    ok, P2 = ctx.call("colens:predict_proba-exception", ce.predict_proba, Xte.iloc[::-1].reset_index(drop=True))
+    if ok:
+        ctx.check("column-ensemble.average", np.allclose(np.asarray(P2)[::-1], exp, atol=1e-12), "colens:proba-not-average-of-members-on-own-columns",
+                  "column ensemble probabilities on reordered instances are not the members' average", columns=cols)
     pred = ce.predict(Xte)
     ctx.check("column-ensemble.average", list(np.asarray(ce.classes_)) == sorted(set(y.tolist())) and all(p in enc for p in pred.tolist()), "colens:classes-or-labels-wrong",
               "column ensemble classes_ / predicted labels are not the training labels")
-    ctx.event(kind="colens", columns=cols, classes=sorted(enc))
-    ctx.nontrivial = case["members"] >= 2
+    ctx.event(kind="colens", columns=cols, forms=forms, skipped=case.get("skipped"), remainder=bool(kw), classes=sorted(enc))
+    ctx.tag("colens:skipped=%d" % len(case.get("skipped") or []))
+    ctx.tag("colens:remainder=%s" % bool(kw))
+    for f in forms[:len(cols)]:
+        ctx.tag("colens:columns-as-" + f)
+    ctx.nontrivial = len(live) >= 2
